@@ -279,16 +279,23 @@ def thread_probes(ck, tier):
                 cm = sn.lp().chain_manager
                 new_cs = cm.coinstate.add_block(nb.block, nb.view.time + 1)
                 validated, switched = threading.Event(), threading.Event()
-                orig = getattr(MG, point)
+                from skepticoin import consensus as CONS
+                # the validator is held wherever the manager looks it up: its own namespace (from-import) and the
+                # consensus module (attribute access); a name that is in neither leaves the probe sequential
+                places = [m_ for m_ in (MG, CONS) if hasattr(m_, point)]
+                origs = [(m_, getattr(m_, point)) for m_ in places]
                 admitting = []
 
-                def held(*a, _o=orig, **kw):
-                    r_ = _o(*a, **kw)
-                    if threading.current_thread() in admitting:
-                        validated.set()
-                        switched.wait(0.4)
-                    return r_
-                setattr(MG, point, held)
+                def mk_held(_o):
+                    def held(*a, **kw):
+                        r_ = _o(*a, **kw)
+                        if threading.current_thread() in admitting and not validated.is_set():
+                            validated.set()
+                            switched.wait(0.4)
+                        return r_
+                    return held
+                for m_, o_ in origs:
+                    setattr(m_, point, mk_held(o_))
                 res = {}
                 try:
                     def admit():
@@ -302,7 +309,8 @@ def thread_probes(ck, tier):
                     admitting.append(ta)
                     ta.start(); tb.start(); ta.join(5); tb.join(5)
                 finally:
-                    setattr(MG, point, orig)
+                    for m_, o_ in origs:
+                        setattr(m_, point, o_)
                 pool = list(cm.transaction_pool)
                 ck.case(('threads', probe), kind='threads/held-after-' + point.replace('validate_', '')[:28],
                         sample={'held_after': point, 'admitted': res.get('ok'), 'pool_after': len(pool)} if probe < 2 else None)
